@@ -120,6 +120,7 @@ func (r *rdbdriver) findMapInSortedData(domain, mtype []byte, context Context) (
 	copy(k[len(mtype):], reversedZone)
 
 	prefixLen := len(mtype)
+	rootChecked := false
 
 	for {
 		copy(k[len(k)-len(suffix):], suffix)
@@ -150,7 +151,12 @@ func (r *rdbdriver) findMapInSortedData(domain, mtype []byte, context Context) (
 			length = getLengthWithoutLastLabel(reversedZone, len(reversedZone)) - 1
 		}
 		if length == 0 {
-			break
+			if rootChecked || len(reversedZone) == 1 {
+				break
+			}
+			// no label in common with any other map: the last candidate is the
+			// wildcard map of the root, which the CDB and v1 lookups try as well
+			rootChecked = true
 		}
 
 		// k already has necessary data - we just need to cut it at proper point
